@@ -400,6 +400,48 @@ def check_flag_provenance(ctx, rule: str):
                 ctx.check(ok, rule, f"{fi.key}:is_hermitian-flag", "self-adjoint flag absent, literal, forwarded or from a Hermiticity test", f"{fi.qualname} builds a gate whose is_hermitian flag is {short(flag)}" + (f" = {short(resolved)}" if resolved is not None and resolved is not flag else "") + ": not a test that the matrix equals its conjugate transpose (a complex symmetric matrix, or one whose Hermiticity sympy cannot decide, would be treated as its own dagger, so .dagger and Circuit.inverse return the gate itself)", f"{fi.module.relpath}:{c.lineno}")
 
 
+def check_matrix_factory_dagger(ctx, rule: str):
+    """A base gate is its own dagger only under its is_hermitian flag; otherwise it is wrapped in Dagger (shared with C02: what the
+    flag is trusted for)."""
+    mod = ctx.repo.module(GATES)
+    dg = mod.classes["MatrixFactoryGate"].methods["dagger"]
+    ctx.analysed(dg)
+    r = returned_exprs(dg.node)
+    ok = len(r) == 1 and norm(r[0]) in ("self if self.is_hermitian else Dagger(self)", "Dagger(self) if not self.is_hermitian else self")
+    if not ok:
+        # statement form / several exits: every exit is `Dagger(self)`, or `self` on a path where `self.is_hermitian` was tested
+        # true. Anything else (a re-parametrised copy, the inverse, a cached object) is a dagger computed some other way
+        from ..cfg import cfg_of
+
+        cfg = cfg_of(dg.node)
+        flag_tests = [n for n in cfg.nodes if n.kind == "test" and isinstance(n.ast, ast.If) and norm(n.ast.test) in ("self.is_hermitian", "not self.is_hermitian")]
+        bad = []
+        for n in cfg.nodes:
+            if not isinstance(n.ast, ast.Return) or n.ast.value is None:
+                continue
+            v = n.ast.value
+            exits = [(v, None)]
+            if isinstance(v, ast.IfExp) and norm(v.test) in ("self.is_hermitian", "not self.is_hermitian"):
+                pos = norm(v.test) == "self.is_hermitian"
+                exits = [(v.body, pos), (v.orelse, not pos)]
+            for e, under_flag in exits:
+                t = norm(e)
+                if t == "Dagger(self)":
+                    continue
+                if t == "self":
+                    if under_flag is True:
+                        continue
+                    if any(cfg.edge_dominates(ft, "true" if norm(ft.ast.test) == "self.is_hermitian" else "false", n) for ft in flag_tests):
+                        continue
+                    bad.append((e, "the gate itself is returned on a path where is_hermitian was not tested true"))
+                else:
+                    bad.append((e, "neither the gate under its is_hermitian flag nor Dagger(self): an adjoint obtained by re-parametrising (or any other shortcut) is right for some gates only -- the adjoint of GPi2(t) is GPi2(t + pi), of U3(a, b, c) is U3(-a, -c, -b)"))
+        ok = not bad and any(isinstance(n.ast, ast.Return) for n in cfg.nodes)
+        ctx.check(ok, rule, dg.key + ":flag-trusted", "every exit is self under is_hermitian, or Dagger(self)", f"MatrixFactoryGate.dagger returns {short(bad[0][0]) if bad else None}: {bad[0][1] if bad else ''}", f"{dg.module.relpath}:{bad[0][0].lineno}" if bad else dg)
+    else:
+        ctx.ok(rule, dg.key + ":flag-trusted", "self if is_hermitian else Dagger(self)", dg)
+
+
 def check_dagger_semantics(ctx, rule: str):
     """What `gate.dagger` means for every gate the library can build (shared with C08, whose circuit
     inverse is reversed order + per-gate dagger): (a) Dagger.matrix is the conjugate transpose of the
@@ -416,11 +458,7 @@ def check_dagger_semantics(ctx, rule: str):
     r = returned_exprs(m.node)
     ok = len(r) == 1 and norm(r[0]) in [i.replace("X", W) for i in ADJOINT_IDIOMS]
     ctx.check(ok, rule, m.key + ":adjoint", "Dagger.matrix = conjugate transpose of the wrapped matrix", f"Dagger.matrix returns {short(r[0]) if r else None}: not the conjugate transpose of the wrapped matrix (a bare transpose or bare conjugate is wrong for complex non-symmetric gates such as RY, U3, GPi2)", m)
-    dg = mod.classes["MatrixFactoryGate"].methods["dagger"]
-    ctx.analysed(dg)
-    r = returned_exprs(dg.node)
-    ok = len(r) == 1 and norm(r[0]) in ("self if self.is_hermitian else Dagger(self)", "Dagger(self) if not self.is_hermitian else self")
-    ctx.check(ok, rule, dg.key + ":flag-trusted", "self if is_hermitian else Dagger(self)", f"MatrixFactoryGate.dagger returns {short(r[0]) if r else None}: a gate may be returned as its own dagger only under its is_hermitian flag", dg)
+    check_matrix_factory_dagger(ctx, rule)
     dd = mod.classes["Dagger"].methods.get("dagger")
     if dd is not None:
         r = returned_exprs(dd.node)
